@@ -749,9 +749,13 @@ def _run_fault(cfg, body, k, persist, block_at, orig_out, orig_err) -> dict:
                 elif name == "add":
                     tasks.append(cm.add_task("N%d" % i))
                 elif name == "advance":
-                    cm.advance(tasks[0], 1)
+                    if tasks:
+                        cm.advance(tasks[0], 1)
                 elif name == "visible":
-                    cm.update(tasks[0], visible=False, refresh=True)
+                    if tasks:
+                        cm.update(tasks[0], visible=False, refresh=True)
+                    else:
+                        cm.refresh()
                 else:
                     raise ValueError(op)
             if block_at is not None and block_at >= len(body):
@@ -934,7 +938,9 @@ def run(tier: str, seed: int) -> dict:
     samples: List[Any] = []
     pending: Dict[str, List[dict]] = {}
 
-    def add_fail(check, what, input_key, inp, expected, observed, size=0):
+    def add_fail(check, what, input_key, inp, expected, observed, size=0, counted=True):
+        if counted:
+            per_clause[check] = per_clause.get(check, 0) + 1
         lst = pending.setdefault(check, [])
         lst.append({"check": check, "what": what, "input_key": input_key, "input": inp,
                     "expected": expected, "observed": observed, "_size": size})
@@ -1020,7 +1026,7 @@ def run(tier: str, seed: int) -> dict:
                 continue
             seen_keys.add(sig)
             add_fail(check, f["what"], ik, {"cfg": cfg, "ops": ops, "case_index": it["r"]["i"], "seed": seed},
-                     f["expected"], f["observed"], size=len(ops))
+                     f["expected"], f["observed"], size=len(ops), counted=False)
             kept += 1
         per_clause[check] = len(items)
 
@@ -1038,8 +1044,8 @@ def run(tier: str, seed: int) -> dict:
                 d.pop("_size")
                 failures.append(d)
                 kept += 1
-        if len(lst) > kept:
-            suppressed[check] = max(per_clause.get(check, 0), len(lst)) - kept
+        if per_clause.get(check, 0) > kept:
+            suppressed[check] = per_clause[check] - kept
 
     return {
         "evaluations": evaluations,
